@@ -24,7 +24,7 @@ import (
 var c08Mutations = []string{
 	"L:one-participant", "L:zero-challenge", "L:prelocked", "L:sender-mismatch", "L:receiver-mismatch", "L:three-peers", "L:three-parts", "L:stranger-ok-shape",
 	"S:unknown-parent", "S:other-assets", "S:too-many-funds", "S:from-stranger", "S:zero-challenge", "S:prelocked", "S:more-assets",
-	"S:funds-spent-by-inflight-update",
+	"S:funds-spent-by-inflight-update", "S:assets-permuted",
 	"V:funding-agreement-mismatch", "V:short-parents", "V:long-parents", "V:unknown-parent", "V:indexmaps-count", "V:indexmap-entry", "V:too-many-funds",
 	"V:other-assets", "V:zero-challenge", "V:no-parents",
 }
@@ -494,7 +494,7 @@ func (p *pair) injectMutant(step int, st *kernel.Step, zWire map[wallet.BackendI
 		time.Sleep(s.Delay(fmt.Sprintf("stale-gap:%d", step), 0, []time.Duration{20 * time.Microsecond, 200 * time.Microsecond, 2 * time.Millisecond}[r.Intn(3)]))
 	case "S:unknown-parent":
 		msg, err = client.NewSubChannelProposal(gen.SubID(r.Uint64()), 5, mkAlloc(2, 1, 1), nonce)
-	case "S:from-stranger", "S:other-assets", "S:too-many-funds", "S:zero-challenge", "S:prelocked", "S:more-assets":
+	case "S:from-stranger", "S:other-assets", "S:too-many-funds", "S:zero-challenge", "S:prelocked", "S:more-assets", "S:assets-permuted":
 		pid := gen.SubID(77)
 		a := mkAlloc(2, 1, 1)
 		if parent != nil {
@@ -507,6 +507,13 @@ func (p *pair) injectMutant(step int, st *kernel.Step, zWire map[wallet.BackendI
 			switch m {
 			case "S:other-assets":
 				a.Assets[0] = gen.Asset(55)
+			case "S:assets-permuted":
+				// the parent's assets in another order (every one of them occurs in the
+				// parent, none at its position); needs a parent with two assets or more
+				if len(a.Assets) < 2 {
+					return
+				}
+				a.Assets = append(a.Assets[1:len(a.Assets):len(a.Assets)], a.Assets[0])
 			case "S:too-many-funds":
 				k := r.Intn(2)
 				a.Balances[0][k] = new(big.Int).Add(ps.Balances[0][k], big.NewInt(1))
